@@ -6,6 +6,8 @@ Import ListNotations.
 Require Import PV.Core.Obj PV.Core.Val PV.Core.Cls PV.Core.Member PV.Core.CanAssignK PV.Core.CanAssign.
 Require Import PV.Core.C03Run PV.Core.C04Run PV.Proofs.ValInd PV.Proofs.C04Mono.
 
+Local Strategy opaque [veq veq_f].
+
 Section Refl.
   Context (ct : class_table) (e : bool).
 
